@@ -7,6 +7,8 @@ import (
 	"os/exec"
 	"strconv"
 	"strings"
+	"sync"
+	"sync/atomic"
 
 	"github.com/lidofinance/dc4bc/fsm/types/requests"
 	"github.com/lidofinance/dc4bc/pkg/wc_rotation"
@@ -159,10 +161,48 @@ func c17(tier string, args []string) int {
 			}
 		}()
 	}
+	// supplement (free-running, NOT an enumeration of schedules: silence says nothing, a wrong root
+	// is a wrong root): the node computes these roots from its poller and from its API handlers at
+	// the same time - eight goroutines go through the whole list at once
+	{
+		var wg sync.WaitGroup
+		var bad atomic.Value
+		var n int64
+		for g := 0; g < 8; g++ {
+			wg.Add(1)
+			go func(g int) {
+				defer wg.Done()
+				for k := 0; k < positions; k++ {
+					pos := (k*7 + g*2333) % positions
+					m, err, pv := call(pos)
+					atomic.AddInt64(&n, 1)
+					if pv != nil || err != nil {
+						bad.CompareAndSwap(nil, fmt.Sprintf("position %d, asked while other goroutines ask for other positions: error %v panic %v", pos, err, pv))
+						return
+					}
+					idx, perr := strconv.ParseUint(m.MessageID, 10, 64)
+					if perr != nil {
+						continue
+					}
+					want := oracle.SpecSigningRoot(idx)
+					if string(m.Payload) != string(want[:]) {
+						bad.CompareAndSwap(nil, fmt.Sprintf("position %d (validator %d), asked while other goroutines ask for other positions: message %x, consensus-spec signing root %x", pos, idx, m.Payload, want))
+						return
+					}
+				}
+			}(g)
+		}
+		wg.Wait()
+		evals += int(n)
+		if b := bad.Load(); b != nil {
+			r.Violation("C17/wrong-signing-root/concurrent-callers", b.(string), map[string]string{"how": "8 goroutines through the whole list at once (free-running)"})
+		}
+		r.Set("concurrent_supplement_calls", int(n))
+	}
 	r.Set("evaluations", evals)
 	r.Set("distinct_nontrivial", distinct)
 	r.Set("positions_checked", positions)
-	r.Set("rule", "all 18632 baked positions through requests.ReconstructBakedMessage against the independent spec implementation (one canonical decimal index each, no duplicates), a boundary alphabet of uint64 indices through wc_rotation.GetSigningRoot, out-of-range positions (negative, trailing empty line, beyond) directly and through TasksToMessages")
+	r.Set("rule", "all 18632 baked positions through requests.ReconstructBakedMessage against the independent spec implementation (one canonical decimal index each, no duplicates), a boundary alphabet of uint64 indices through wc_rotation.GetSigningRoot, out-of-range positions (negative, trailing empty line, beyond) directly and through TasksToMessages; free-running supplement: 8 goroutines through the whole list at once")
 	return finish(r)
 }
 
